@@ -44,6 +44,22 @@ CLAIMS = {
         ),
         note=NOTE_COMMON + "Defining points are read from the inferred field table, not hard-coded.",
     ),
+    "C07": dict(
+        technique="forward must-dataflow over the CFG of each move() against the class field table (affine-kind classification), def-use on v (static analysis, ast)",
+        ref="DESIGN.md 3 (C07)",
+        text=(
+            "Decides C07's structural clauses for every receiver and every move vector: on every path of each of the 7 "
+            "move() methods from the accepting edge of isinstance(v, Vector) to a normal exit, every positional field of "
+            "the class (18 positional / 3 directional, derived from all self.f stores with an affine-kind algebra for "
+            "vector fields) is refreshed -- moved in place by the same v, shifted component-wise with matching axes, or "
+            "re-assigned from data depending on v / refreshed state and on no stale positional field; the success path "
+            "returns a constructor call of the own class built from refreshed state; a non-Vector argument raises. A "
+            "forgotten cached field (carrier line, plane, centre, edge/pyramid sets) is exactly what makes queries on "
+            "the moved receiver answer for the old position. NOT decided: measures unchanged, v then -v restores "
+            "equality (floating point)."
+        ),
+        note=NOTE_COMMON,
+    ),
     "C10": dict(
         technique="type-set dispatch evaluation + sign domain + R-CROSS guard dominance on the CFG (static analysis, ast)",
         ref="DESIGN.md 3 (C10)",
